@@ -88,11 +88,16 @@ class C18(Prop):
                  "obs": {"strats": 3, "when": "time_step", "concat": True, "defaults": ["sex"], "values": 3, "rich": True, "report": True},
                  "extras": {"pafs": [0.25], "cat": True, "tables": True, "ds": "name", "art": None, "late": 2, "private": True, "foreign": True},
                  "order": [5, 1]}
+        # the same with enough simulants and steps that an activated triggered transition certainly FIRES after a boundary (with
+        # 8 simulants and 4 steps none did: a backup that dropped the active index went unnoticed - mutant
+        # break-transition-getstate-drops-active-index)
+        state2 = dict(state, pop=24, n_steps=5, disease=dict(state["disease"], trig={"at": 0, "every": 2}))
         # WHOLE stream: age column, interpolated table + pipeline with three modifiers, observer with a stateful log, key columns
         from . import whole
         return [{"spec": full, "hs_save": 1, "hs_resume": 2, "noise": 5, "plan": 1},
                 {"spec": vary, "hs_save": 0, "hs_resume": 3, "noise": 9, "plan": 2},
                 {"spec": state, "hs_save": "random", "hs_resume": "random", "noise": 13, "plan": 3},
+                {"spec": state2, "hs_save": "random", "hs_resume": "random", "noise": 13, "plan": 3},
                 {"kind": "whole", "cfg": whole.ext_boundary()[-1], "hs_save": 1, "hs_resume": "random", "noise": 4, "plan": 5}]
 
     def generate(self, rng: random.Random, i: int, tier: str):
